@@ -90,7 +90,7 @@ def run(tape: Tape, params: dict) -> Outcome:
             for pi in range(1 + nphase0):
                 tape.span_begin(ppos)
                 tag = b"c%dp%d" % (ci, pi)
-                kind = tape.weighted([4, 2, 2, 1, 1], "phase.kind")  # ok, slow, badhost, partial, pipelined pair
+                kind = tape.weighted([4, 2, 2, 1, 1, 1], "phase.kind")  # ok, slow, badhost, partial, pair, pair-partial
                 pause = tape.choice(grid, "phase.pause")
                 if kind == 0:
                     steps.append(("send", _get(tag)))
@@ -125,6 +125,27 @@ def run(tape: Tape, params: dict) -> Outcome:
                     parser.expect(b"GET")
                     nresp += 1
                     info.tags.append(tag)
+                    steps.append(("wait", responses_at_least(nresp), 30.0))
+                    pause = tape.choice(grid, "phase.pause2")
+                elif kind == 5:
+                    # the first bytes of a second request arrive while the first is still being served,
+                    # then the client goes silent for `pause` before it completes the head
+                    tag2 = tag + b"b"
+                    d = tape.choice([0.05, T / 2], "phase.pairslow")
+                    host.programs[tag] = [("recv_all",), ("pause", ("sleep", d)), ("respond", 200, [], [b"first"])]
+                    wire2 = _get(tag2)
+                    cutpos = 1 + tape.draw(len(wire2) - 2, "phase.partialcut")
+                    steps.append(("send", _get(tag) + wire2[:cutpos]))
+                    parser.expect(b"GET")
+                    nresp += 1
+                    info.tags.append(tag)
+                    steps.append(("wait", responses_at_least(nresp), 30.0))
+                    info.history.append(("pair-partial", d, cutpos, pause))
+                    steps.append(("sleep", pause))
+                    steps.append(("send", wire2[cutpos:]))
+                    parser.expect(b"GET")
+                    nresp += 1
+                    info.tags.append(tag2)
                     steps.append(("wait", responses_at_least(nresp), 30.0))
                     pause = tape.choice(grid, "phase.pause2")
                 else:
@@ -189,7 +210,7 @@ def run(tape: Tape, params: dict) -> Outcome:
                 tape.span_end()
             script = Script(world, steps, peer, setup=setup)
         # how the history ends: silence (idle expiry), peer loss, or worker shutdown while idle
-        ending = tape.weighted([4, 2, 2, 2, 2], "conn.ending")
+        ending = tape.weighted([4, 2, 2, 2, 2, 1], "conn.ending")
         if ending == 0:
             script.steps.append(("wait", lambda sc: False, 4 * T + 2))
             info.loss = None
@@ -205,6 +226,18 @@ def run(tape: Tape, params: dict) -> Outcome:
             cut.append(("wait", lambda sc: False, 4 * T + 2))
             script.steps = cut
             info.loss = kind
+        elif ending == 5:
+            # a failing server write (the client's host vanished): the k-th send raises EPIPE
+            k = 2 + tape.draw(8, "loss.writeerr.at")
+            prev_setup = script.setup
+
+            def setup_err(conn: Any, k: int = k, prev: Any = prev_setup) -> None:
+                prev(conn)
+                conn.fail_send_at = k
+
+            script.setup = setup_err
+            script.steps.append(("wait", lambda sc: False, 4 * T + 2))
+            info.loss = "write_err"
         else:
             script.steps.append(("wait", lambda sc: False, 4 * T + 2))
             if trigger_at is None:
@@ -252,7 +285,8 @@ def _check(world: World, host: AppHost, conns: List[ConnInfo], T: float, out: Ou
             continue
         srv = conn.server
         t_close = srv.closed_at
-        t_loss = min([t for t in (srv.fin_arrived_at, srv.rst_arrived_at) if t is not None], default=None)
+        t_err = next((e[1] for e in sim.log if e[2] == "s.senderr" and e[3] == conn.id), None)
+        t_loss = min([t for t in (srv.fin_arrived_at, srv.rst_arrived_at, t_err) if t is not None], default=None)
         busy = _busy_intervals(host, info)
         if t_close is not None:
             # a request whose head completes in the very instant the idle timer fires has no defined
